@@ -28,7 +28,7 @@ REQUIRED = ["totality.draw", "totality.render", "totality.rasterised", "types.ic
             "lanelets.all", "lanelets.subset", "lanelets.empty-list", "propagation.root", "propagation.nested",
             "propagation.value-collision", "flag.draw_icon", "flag.show_label", "flag.draw_occupancies",
             "flag.draw_signals", "flag.draw_continuous", "uncertain-state-drawn", "pp.draw_ids",
-            "exactness.uncertain-initial-position", "exactness.parameters-passed-with-the-draw-call",
+            "exactness.uncertain-initial-position", "exactness.parameters-passed-with-the-draw-call", "exactness.second-frame-of-a-reused-renderer",
             "totality.fan-lanelet-with-marked-short-bound",
             "trajectory-windows.layout-UUUU", "trajectory-windows.layout-EEEUUUEEEE", "trajectory-windows.mode-continuous",
             "exactness.uncertain-initial-position.begin-after-initial-step"]
@@ -387,6 +387,19 @@ def run(ctx):
                     ob_.draw(rnd, P)
                 ctx.feature("exactness.parameters-passed-with-the-draw-call")
                 wit["route"] = "object.draw(renderer, params)"
+            elif rconf == "default" and i % 4 == 2:
+                # one renderer for two frames (an animation loop that keeps the static artists): the second frame shows the
+                # model at ITS time window, nothing of the first one
+                import copy as _cp
+                PA = _cp.deepcopy(P)
+                PA.time_begin, PA.time_end = 0, 4
+                rnd = MPRenderer(draw_params=PA, ax=fig.gca())
+                sc.draw(rnd)
+                rnd.render(keep_static_artists=True)
+                rnd.draw_params = P
+                sc.draw(rnd)
+                ctx.feature("exactness.second-frame-of-a-reused-renderer")
+                wit["route"] = "frame [0, 4] rendered with keep_static_artists=True, then this frame on the same renderer"
             else:
                 rnd = MPRenderer(draw_params=P, ax=fig.gca(), **rkw)
                 sc.draw(rnd)
